@@ -9,7 +9,7 @@ import z3
 from mirsym import engine
 from mirsym.engine import Inconclusive
 from mirsym.interp import Agg, Var, Ref, State, Opaque, UNIT, to_z3, is_z3
-from .common import rvec, none, some, hyps_of
+from .common import rvec, none, some, hyps_of, real_cycle
 from .buildrules import pcs
 from . import facerule as FR, cliprules as CR
 
@@ -32,7 +32,7 @@ def mk_cell(planes, verts, dim='ThreeD', idx=0, labels=None):
         r, s = (labels[k] if labels else (none(), none()))
         hs.append(FR.half_space(Agg('DVec3', [F(x) for x in n]), Agg('DVec3', [F(x) for x in p]), r, s, d=F(0), errb=F(1, 10 ** 13)))
     vs = [engine.make_struct('src/voronoi/convex_cell.rs', 'Vertex', loc=Agg('DVec3', [F(x) for x in loc]), dual=Agg('array', dual), radius2=F(1)) for dual, loc in verts]
-    cyc = engine.make_struct('src/simple_cycle.rs', 'SimpleCycle', ptrs=Agg('Vec', list(range(len(planes)))), start=0, len=0)
+    cyc = real_cycle(engine.load_mir('ibig')[0], len(planes))
     return engine.make_struct('src/voronoi/convex_cell.rs', 'ConvexCell', idx=idx, loc=Agg('DVec3', [F(1, 2)] * 3), clipping_planes=Agg('Vec', hs),
                               vertices=Agg('Vec', vs), faces=none(), face_vertex_connections=none(), boundary=cyc,
                               safety_radius=F(4), dimensionality=FR.dimv(dim), _phantom=Agg('zst:PhantomData', ()))
